@@ -1,3 +1,287 @@
+// proto.go: gen/ProtoTags.v — the wire-format facts of data/esdt that property C14 pins:
+//
+//	struct_<Msg>     the `protobuf:"<kind>,<number>,<label>,…"` struct tags of the generated message structs
+//	marshal_<Msg>    the tag-byte literals `dAtA[i] = 0x..` of <Msg>.MarshalToSizedBuffer in source order
+//	                 (the buffer is filled backwards: source order is the reverse of the emission order),
+//	                 each with the field of m that the surrounding code reads
+//	unmarshal_<Msg>  the `case <n>:` labels of `switch fieldNum` in <Msg>.Unmarshal with the wire type
+//	                 required by `if wireType != <k>` and the field named in the error text
+//	size_<Msg>       the fields read by <Msg>.Size() in source order
+//	proto_<Msg>      the field declarations of data/esdt/proto/esdt.proto
+//
+// Whatever is not understood is listed in `unrecognised`, which the Coq side requires to be empty.
 package main
 
-func genProto(repo, outDir string) {}
+import (
+	"fmt"
+	"go/ast"
+	"go/token"
+	"os"
+	"path/filepath"
+	"reflect"
+	"regexp"
+	"strconv"
+	"strings"
+)
+
+var protoMsgs = []string{"ESDigitalToken", "ESDTRoles", "MetaData"}
+
+func genProto(repo, outDir string) {
+	o := &outFile{}
+	o.p("%s", header)
+	o.p("(* Wire-format facts of data/esdt/esdt.pb.go and data/esdt/proto/esdt.proto (see tools/srcgen/proto.go). *)")
+	o.p("Module PT.")
+	var bad []string
+	pkg := loadPkg(filepath.Join(repo, "data", "esdt"))
+	f := pkg.files["esdt.pb.go"]
+	if f == nil {
+		bad = append(bad, "data/esdt/esdt.pb.go missing")
+		f = &ast.File{}
+	}
+	// ---- struct tags ----
+	structFields := map[string][]string{}
+	for _, msg := range protoMsgs {
+		var rows []string
+		found := false
+		for _, d := range f.Decls {
+			gd, ok := d.(*ast.GenDecl)
+			if !ok || gd.Tok != token.TYPE {
+				continue
+			}
+			for _, sp := range gd.Specs {
+				ts := sp.(*ast.TypeSpec)
+				st, ok := ts.Type.(*ast.StructType)
+				if !ok || ts.Name.Name != msg {
+					continue
+				}
+				found = true
+				for _, fl := range st.Fields.List {
+					if len(fl.Names) != 1 || fl.Tag == nil {
+						bad = append(bad, "struct "+msg+": field without a single name and a tag")
+						continue
+					}
+					name := fl.Names[0].Name
+					raw, err := strconv.Unquote(fl.Tag.Value)
+					if err != nil {
+						bad = append(bad, "struct "+msg+"."+name+": tag")
+						continue
+					}
+					pb := reflect.StructTag(raw).Get("protobuf")
+					parts := strings.Split(pb, ",")
+					if len(parts) < 3 {
+						bad = append(bad, "struct "+msg+"."+name+": protobuf tag "+pb)
+						continue
+					}
+					num, err := strconv.ParseUint(parts[1], 10, 32)
+					if err != nil || (parts[0] != "varint" && parts[0] != "bytes") || (parts[2] != "opt" && parts[2] != "rep") {
+						bad = append(bad, "struct "+msg+"."+name+": protobuf tag "+pb)
+						continue
+					}
+					rows = append(rows, fmt.Sprintf("(\"%s\", \"%s\", %d%%N, \"%s\")", name, parts[0], num, parts[2]))
+					structFields[msg] = append(structFields[msg], name)
+				}
+			}
+		}
+		if !found {
+			bad = append(bad, "struct "+msg+" missing")
+		}
+		o.p("(* (Go field, wire kind, field number, label) *)")
+		o.p("Definition struct_%s : list (string * string * N * string) := [%s].", msg, strings.Join(rows, "; "))
+	}
+	isField := func(msg, name string) bool {
+		for _, n := range structFields[msg] {
+			if n == name {
+				return true
+			}
+		}
+		return false
+	}
+	method := func(msg, name string) *ast.FuncDecl {
+		for _, d := range f.Decls {
+			fd, ok := d.(*ast.FuncDecl)
+			if !ok || fd.Recv == nil || fd.Body == nil || fd.Name.Name != name || len(fd.Recv.List) != 1 {
+				continue
+			}
+			if strings.TrimPrefix(exprString(pkg.fset, fd.Recv.List[0].Type), "*") == msg {
+				return fd
+			}
+		}
+		return nil
+	}
+	// ---- Marshal: tag-byte literals ----
+	for _, msg := range protoMsgs {
+		var rows []string
+		fd := method(msg, "MarshalToSizedBuffer")
+		if fd == nil {
+			bad = append(bad, msg+".MarshalToSizedBuffer missing")
+		} else {
+			last := ""
+			ast.Inspect(fd.Body, func(n ast.Node) bool {
+				switch x := n.(type) {
+				case *ast.SelectorExpr:
+					if id, ok := x.X.(*ast.Ident); ok && id.Name == "m" && isField(msg, x.Sel.Name) {
+						last = x.Sel.Name
+					}
+				case *ast.AssignStmt:
+					if len(x.Lhs) == 1 && len(x.Rhs) == 1 && x.Tok == token.ASSIGN {
+						if ix, ok := x.Lhs[0].(*ast.IndexExpr); ok && exprString(pkg.fset, ix.X) == "dAtA" {
+							if lit, ok := x.Rhs[0].(*ast.BasicLit); ok && lit.Kind == token.INT {
+								v, err := strconv.ParseUint(lit.Value, 0, 8)
+								if err != nil || last == "" {
+									bad = append(bad, msg+".MarshalToSizedBuffer: literal "+lit.Value)
+								} else {
+									rows = append(rows, fmt.Sprintf("(\"%s\", %d%%N)", last, v))
+								}
+							} else {
+								bad = append(bad, msg+".MarshalToSizedBuffer: non-literal store into dAtA")
+							}
+						}
+					}
+				}
+				return true
+			})
+		}
+		o.p("(* (field of m read before the store, tag byte literal), source order = reverse emission order *)")
+		o.p("Definition marshal_%s : list (string * N) := [%s].", msg, strings.Join(rows, "; "))
+	}
+	// ---- Unmarshal: case labels and wire types ----
+	reField := regexp.MustCompile(`for field (\w+)`)
+	for _, msg := range protoMsgs {
+		var rows []string
+		fd := method(msg, "Unmarshal")
+		if fd == nil {
+			bad = append(bad, msg+".Unmarshal missing")
+		} else {
+			nSwitch := 0
+			ast.Inspect(fd.Body, func(n ast.Node) bool {
+				sw, ok := n.(*ast.SwitchStmt)
+				if !ok || sw.Tag == nil || exprString(pkg.fset, sw.Tag) != "fieldNum" {
+					return true
+				}
+				nSwitch++
+				for _, st := range sw.Body.List {
+					cc := st.(*ast.CaseClause)
+					if cc.List == nil {
+						continue // default: skipEsdt
+					}
+					if len(cc.List) != 1 {
+						bad = append(bad, msg+".Unmarshal: case with several labels")
+						continue
+					}
+					lit, ok := cc.List[0].(*ast.BasicLit)
+					if !ok || lit.Kind != token.INT {
+						bad = append(bad, msg+".Unmarshal: case label")
+						continue
+					}
+					num, _ := strconv.ParseUint(lit.Value, 0, 32)
+					wt, fname := int64(-1), ""
+					if len(cc.Body) > 0 {
+						if is, ok := cc.Body[0].(*ast.IfStmt); ok {
+							if be, ok := is.Cond.(*ast.BinaryExpr); ok && be.Op == token.NEQ && exprString(pkg.fset, be.X) == "wireType" {
+								if l2, ok := be.Y.(*ast.BasicLit); ok && l2.Kind == token.INT {
+									w, err := strconv.ParseUint(l2.Value, 0, 8)
+									if err == nil {
+										wt = int64(w)
+									}
+								}
+							}
+							ast.Inspect(is.Body, func(m ast.Node) bool {
+								if bl, ok := m.(*ast.BasicLit); ok && bl.Kind == token.STRING {
+									if mm := reField.FindStringSubmatch(bl.Value); mm != nil {
+										fname = mm[1]
+									}
+								}
+								return true
+							})
+						}
+					}
+					if wt < 0 || fname == "" {
+						bad = append(bad, fmt.Sprintf("%s.Unmarshal: case %d without a wire type check", msg, num))
+						continue
+					}
+					rows = append(rows, fmt.Sprintf("(%d%%N, %d%%N, \"%s\")", num, wt, fname))
+				}
+				return false
+			})
+			if nSwitch != 1 {
+				bad = append(bad, msg+".Unmarshal: expected exactly one switch on fieldNum")
+			}
+		}
+		o.p("(* (case label of `switch fieldNum`, required wire type, field named in the error text) *)")
+		o.p("Definition unmarshal_%s : list (N * N * string) := [%s].", msg, strings.Join(rows, "; "))
+	}
+	// ---- Size: fields read, in source order (no duplicates in a row) ----
+	for _, msg := range protoMsgs {
+		var rows []string
+		fd := method(msg, "Size")
+		if fd == nil {
+			bad = append(bad, msg+".Size missing")
+		} else {
+			ast.Inspect(fd.Body, func(n ast.Node) bool {
+				if x, ok := n.(*ast.SelectorExpr); ok {
+					if id, ok := x.X.(*ast.Ident); ok && id.Name == "m" && isField(msg, x.Sel.Name) {
+						q := "\"" + x.Sel.Name + "\""
+						if len(rows) == 0 || rows[len(rows)-1] != q {
+							rows = append(rows, q)
+						}
+					}
+				}
+				return true
+			})
+		}
+		o.p("Definition size_%s : list string := [%s].", msg, strings.Join(rows, "; "))
+	}
+	// ---- esdt.proto ----
+	src, err := os.ReadFile(filepath.Join(repo, "data", "esdt", "proto", "esdt.proto"))
+	if err != nil {
+		bad = append(bad, "data/esdt/proto/esdt.proto missing")
+	}
+	reMsg := regexp.MustCompile(`^\s*message\s+(\w+)\s*\{`)
+	reFld := regexp.MustCompile(`^\s*(repeated\s+)?(\w+)\s+(\w+)\s*=\s*(\d+)\s*(\[|;)`)
+	protoRows := map[string][]string{}
+	curMsg := ""
+	for _, line := range strings.Split(string(src), "\n") {
+		if i := strings.Index(line, "//"); i >= 0 {
+			line = line[:i]
+		}
+		if m := reMsg.FindStringSubmatch(line); m != nil {
+			curMsg = m[1]
+			continue
+		}
+		if curMsg == "" {
+			continue
+		}
+		if strings.Contains(line, "}") && !strings.Contains(line, "=") {
+			curMsg = ""
+			continue
+		}
+		if strings.TrimSpace(line) == "" {
+			continue
+		}
+		m := reFld.FindStringSubmatch(line)
+		if m == nil {
+			bad = append(bad, "esdt.proto: "+strings.TrimSpace(line))
+			continue
+		}
+		protoRows[curMsg] = append(protoRows[curMsg], fmt.Sprintf("(\"%s\", \"%s\", %s%%N, %s)", m[3], m[2], m[4], map[bool]string{true: "true", false: "false"}[m[1] != ""]))
+	}
+	for _, msg := range protoMsgs {
+		if protoRows[msg] == nil {
+			bad = append(bad, "esdt.proto: message "+msg+" missing")
+		}
+		o.p("(* (field, declared type, field number, repeated) *)")
+		o.p("Definition proto_%s : list (string * string * N * bool) := [%s].", msg, strings.Join(protoRows[msg], "; "))
+	}
+	if len(protoRows) != len(protoMsgs) {
+		bad = append(bad, "esdt.proto: unexpected set of messages")
+	}
+	stable := strings.Contains(string(src), "(gogoproto.stable_marshaler_all) = true")
+	o.p("Definition stable_marshaler_all : bool := %v.", stable)
+	var qs []string
+	for _, b := range bad {
+		qs = append(qs, "\""+strings.ReplaceAll(b, "\"", "'")+"\"")
+	}
+	o.p("Definition unrecognised : list string := [%s].", strings.Join(qs, "; "))
+	o.p("End PT.")
+	writeIfChanged(filepath.Join(outDir, "ProtoTags.v"), o.buf.Bytes())
+}
